@@ -22,7 +22,16 @@ def run(rec):
     for fn in ("Gillespie3D/GillespieGraph::ComputePropensities, DrawAndApplyEvent, ApplyReaction, ApplyDiffusion, Iterate", "ReactionProp", "DiffusionProp",
                "TauLeap3D/TauLeapGraph::Compute_nevt, Apply_nevt, Iterate", "Build_mesh_kr/Build_mesh_kd", "engineexport_initialize_*/iterate/get_state"):
         rec.encoded(fn)
+    items = []
     for netname, sd in structures(rec.tier, rec.seed):
+        items += [(netname, sd, "gillespie"), (netname, sd, "tauleap")]
+    rec.parallel(_work, items)
+
+
+def _work(rec, item):
+    netname, sd, eng = item
+    if eng == "gillespie":
         facts = gillespie_stage1(rec, netname, sd)
         gillespie_stage2(rec, facts, netname, sd)
+    else:
         tauleap_step(rec, netname, sd)
